@@ -226,8 +226,17 @@ def c16_changes_explained (t : Tr) : Bool :=
         (t.pre.turnstile.isSome && t.pre.params.enabled && t.ok && (opLogs t.op).any (explains ts p.1 n))) &&
   t.pre.idx.all (fun p => t.pre.nftOf p.1 == none || t.post.nftOf p.1 == t.pre.nftOf p.1)
 
+/-- a Register log of the Turnstile, well-formed, for a code-bearing contract, carrying NFT id `n` (low 64 bits), whose
+contract is `first` -/
+def registersAs (ts : Addr) (n : Nat) (first : Option Addr) (l : Log) : Bool :=
+  l.emitter == ts && l.topic == .register &&
+  (match l.payload with
+   | .reg c true tid => tid % U64 == n && first == some c
+   | _ => false)
+
+
 /-- an existing NFT id is never re-created: its record keeps its id and its contract list as a prefix; a new
-id appears only through a Register log of the Turnstile carrying that id -/
+id appears only through a Register log of the Turnstile carrying that id, whose contract heads the new list -/
 def c16_no_recreate (t : Tr) : Bool :=
   let ts := t.pre.turnstile.getD ""
   t.pre.csrs.all (fun p =>
@@ -239,18 +248,15 @@ def c16_no_recreate (t : Tr) : Bool :=
     (t.pre.getCSR p.1).isSome ||
     (match t.post.getCSR p.1 with
      | none => true
-     | some r' =>
-       (opLogs t.op).any (fun l => l.emitter == ts && l.topic == .register &&
-         (match l.payload with
-          | .reg c true tid => tid % U64 == p.1 && r'.contracts.head? == some c
-          | _ => false))))
+     | some r' => t.pre.turnstile.isSome && (opLogs t.op).any (registersAs ts p.1 r'.contracts.head?)))
+
+/-- a Register / Assign log of the Turnstile whose payload the decoder accepts -/
+def isRegistryLog (ts : Addr) (l : Log) : Bool :=
+  l.emitter == ts && (l.topic == .register || l.topic == .assign) && l.payload != .malformed
 
 /-- a receipt none of whose logs is a well-formed Register / Assign log of the Turnstile (logs of other
 emitters in any position, malformed payloads, other topics, no logs at all: plain fee distribution) leaves
 both prefixes as they were up to the `txs` / `revenue` counters; so do parameter changes and transfers -/
-def isRegistryLog (ts : Addr) (l : Log) : Bool :=
-  l.emitter == ts && (l.topic == .register || l.topic == .assign) && l.payload != .malformed
-
 def c16_inert_preserves_registry (t : Tr) : Bool :=
   let ts := t.pre.turnstile.getD ""
   (opLogs t.op).any (isRegistryLog ts) ||
